@@ -39,6 +39,7 @@ import (
 	"sort"
 	"strings"
 	"sync"
+	"sync/atomic"
 	"testing"
 	"testing/synctest"
 	"time"
@@ -66,7 +67,7 @@ import (
 
 type vfC13Globals struct {
 	privL, privR, privF crypto.PrivKey
-	idL, idR, idF       peer.ID
+	idL, idR, idF, idU  peer.ID // U: a peer nobody has ever heard of
 	keyR, keyF          []byte
 	recs                map[string][]byte // "<rc1>/<rec class>/<ra class>" -> envelope bytes
 	mu                  sync.Mutex
@@ -131,6 +132,9 @@ func vfC13Init() error {
 	if g.privF, g.idF, g.keyF, err = gen(); err != nil {
 		return err
 	}
+	if _, g.idU, _, err = gen(); err != nil {
+		return err
+	}
 	if _, err := g.idR.ExtractPublicKey(); err == nil {
 		return errors.New("R's key is extractable from its ID")
 	}
@@ -159,6 +163,9 @@ func (g *vfC13Globals) tokens(rc1 string, aw, pw map[string]int) (*vfC13Tokens, 
 		"pa": "/ip4/8.8.8.8/tcp/4001", "pb": "/ip4/192.168.1.7/tcp/4001", "lo": "/ip4/127.0.0.1/tcp/4001",
 		"x": "/ip4/9.9.9.9/tcp/4001", "sa": "/ip4/7.7.7.7/udp/4001/quic-v1", "sb": "/ip4/10.1.2.3/tcp/4001",
 		"fs": "/ip4/5.5.5.5/tcp/4001/p2p/" + g.idF.String(), "rs": "/ip4/6.6.6.6/tcp/4001/p2p/" + g.idR.String(),
+		"us": "/ip4/5.5.5.6/tcp/4001/p2p/" + g.idU.String(),
+		"d4": "/ip4/6.6.7.1/tcp/4001", "d4s": "/ip4/6.6.7.1/tcp/4001/p2p/" + g.idR.String(),
+		"df": "/ip4/6.6.7.2/tcp/4001", "dfs": "/ip4/6.6.7.2/tcp/4001/p2p/" + g.idF.String(),
 	}
 	for tok, s := range one {
 		if aw[tok] != 1 {
@@ -170,10 +177,18 @@ func (g *vfC13Globals) tokens(rc1 string, aw, pw map[string]int) (*vfC13Tokens, 
 	for i := 0; i < aw["big"]; i++ {
 		t.sent["big"] = append(t.sent["big"], ma.StringCast(fmt.Sprintf("/ip4/11.%d.%d.%d/tcp/4001", i/60000, (i/250)%240, i%250+1)))
 	}
-	for tok, l := range t.sent {
-		for _, a := range l {
+	// stored (suffix-free) form -> token; d4s and dfs are second copies of d4 and df
+	var toks []string
+	for tok := range t.sent {
+		toks = append(toks, tok)
+	}
+	sort.Strings(toks)
+	for _, tok := range toks {
+		for _, a := range t.sent[tok] {
 			bare, _ := peer.SplitAddr(a)
-			t.ofAddr[string(bare.Bytes())] = tok
+			if tok != "d4s" && tok != "dfs" {
+				t.ofAddr[string(bare.Bytes())] = tok
+			}
 			if !bare.Equal(a) {
 				t.ofAddr[string(a.Bytes())] = tok + "+suffix"
 			}
@@ -193,8 +208,13 @@ func (g *vfC13Globals) tokens(rc1 string, aw, pw map[string]int) (*vfC13Tokens, 
 	return t, nil
 }
 
-var vfC13LAddrs = map[string][]string{"none": {}, "own": {"pa", "pb", "lo"}, "fsuf": {"pa", "fs", "rs"}, "big": {"pa", "ra", "big", "x"}}
-var vfC13RAddrs = map[string][]string{"none": {}, "own": {"sa", "sb"}, "fsuf": {"sa", "fs"}, "big": {"sa", "ra", "big", "x"}}
+var vfC13LAddrs = map[string][]string{"none": {}, "own": {"pa", "pb", "lo"}, "fsuf": {"pa", "fs", "rs"}, "big": {"pa", "ra", "big", "x"},
+	"suf1": {"fs"}, "self1": {"rs"}, "sufU": {"pa", "us"}, "dups": {"d4", "d4s", "df", "dfs"}, "bigd": {"d4", "d4s", "big", "x"}}
+var vfC13RAddrs = map[string][]string{"none": {}, "own": {"sa", "sb"}, "fsuf": {"sa", "fs"}, "big": {"sa", "ra", "big", "x"},
+	"suf1": {"fs"}, "sufU": {"sa", "us"}, "dups": {"sa", "d4", "d4s", "df", "dfs"}, "bigd": {"sa", "d4s", "big", "x"}}
+
+// tokens whose address travels ONLY with the /p2p suffix of another peer
+var vfC13ForeignOnly = map[string]bool{"fs": true, "us": true}
 var vfC13PList = map[string][]string{"none": {}, "few": {"p1", "p2"}, "push": {"p1", "idpush"}, "big": {"p1", "pbig", "px"}}
 
 func (t *vfC13Tokens) expand(toks []string) []ma.Multiaddr {
@@ -570,7 +590,13 @@ func (s *vfC13Stream) Scope() network.StreamScope         { return &network.Null
 func vfC13Pipe(c *vfC13Conn, id string) (*vfC13Stream, *vfC13End) {
 	a, b := vfC13NewHalf(), vfC13NewHalf()
 	local := &vfC13Stream{vfC13End: &vfC13End{in: a, out: b}, c: c, id: id}
-	return local, &vfC13End{in: b, out: a}
+	remote := &vfC13End{in: b, out: a}
+	if c != nil && c.sys != nil {
+		c.sys.endsMu.Lock()
+		c.sys.ends = append(c.sys.ends, local.vfC13End, remote)
+		c.sys.endsMu.Unlock()
+	}
+	return local, remote
 }
 
 // ---------------------------------------------------------------------------------------------
@@ -587,6 +613,7 @@ type vfC13Conn struct {
 	mu           sync.Mutex
 	closed       bool
 	nstreams     int
+	answered     int            // how many of the outbound streams the harness has answered (or stalled)
 	local        []*vfC13Stream // outbound streams handed to identify
 	remote       []*vfC13End    // their far ends, in order
 }
@@ -942,6 +969,8 @@ type vfC13Sys struct {
 	keepValid     bool            // ... and a connection has existed ever since
 	chunkModes    map[string]int
 	notified, disc map[string]bool
+	endsMu         sync.Mutex
+	ends           []*vfC13End // every stream end ever made: reset at teardown so that nothing stays blocked
 	baseline       map[string]vfC13PeerView // what the peerstore held under the other peers before any message
 	prevTokens     map[string]int           // address tokens of R before the current step
 }
@@ -994,7 +1023,26 @@ func vfC13New(cfg vfC13Cfg, seed int64) (*vfC13Sys, error) {
 	return s, nil
 }
 
+// teardown closes the stubs: every connection gone, every stream end reset.  Whatever goroutine of the
+// service (or of the harness) still waits on a stream returns, so the bubble can end even when the code
+// under test never gave up by itself.
+func (s *vfC13Sys) teardown() {
+	for _, c := range s.conns {
+		c.mu.Lock()
+		c.closed = true
+		c.mu.Unlock()
+	}
+	s.endsMu.Lock()
+	ends := append([]*vfC13End{}, s.ends...)
+	s.endsMu.Unlock()
+	for _, e := range ends {
+		e.reset()
+	}
+	synctest.Wait()
+}
+
 func (s *vfC13Sys) close() {
+	s.teardown()
 	s.ids.Close()
 	s.sub.Close()
 	s.real.Close()
@@ -1047,6 +1095,7 @@ func (s *vfC13Sys) feed(c *vfC13Conn, frames [][]byte, reset bool, refuse bool) 
 		return errors.New("no identify stream was opened on " + c.name)
 	}
 	r := c.remote[len(c.remote)-1]
+	c.answered = len(c.remote)
 	c.mu.Unlock()
 	go func() {
 		mux := msmux.NewMultistreamMuxer[protocol.ID]()
@@ -1072,8 +1121,83 @@ func (s *vfC13Sys) feed(c *vfC13Conn, frames [][]byte, reset bool, refuse bool) 
 	return nil
 }
 
+func vfC13MsLine(s string) []byte {
+	return append(varint.ToUvarint(uint64(len(s)+1)), append([]byte(s), '\n')...)
+}
+
+// stall plays the remote of the identify request in flight on c up to a point and then stays silent with
+// the stream and the connection open.  at: neg0 (nothing at all), neg1 (the multistream header only),
+// neg2 (negotiation complete, no message), mid (one whole frame and half of the next one).
+func (s *vfC13Sys) stall(c *vfC13Conn, at string) error {
+	c.mu.Lock()
+	if len(c.remote) == 0 || c.answered >= len(c.remote) {
+		c.mu.Unlock()
+		return errors.New("no unanswered identify stream on " + c.name)
+	}
+	r := c.remote[len(c.remote)-1]
+	c.answered = len(c.remote)
+	c.mu.Unlock()
+	switch at {
+	case "neg0":
+	case "neg1":
+		r.Write(vfC13MsLine("/multistream/1.0.0"))
+	case "neg2", "mid":
+		r.Write(vfC13MsLine("/multistream/1.0.0"))
+		r.Write(vfC13MsLine(ID))
+		if at == "mid" {
+			fr, err := s.stallFrames()
+			if err != nil {
+				return err
+			}
+			for _, f := range fr {
+				r.Write(f)
+			}
+		}
+	default:
+		return fmt.Errorf("unknown stall point %q", at)
+	}
+	synctest.Wait()
+	return nil
+}
+
+// one whole frame and the first half of a second one
+func (s *vfC13Sys) stallFrames() ([][]byte, error) {
+	mes, err := s.build(vfC13Msg{Pr: "few", La: "own", Rec: "validR", Ra: "own", Key: "R", Meta: "v1"}, 0)
+	if err != nil {
+		return nil, err
+	}
+	fr, _, err := vfC13Frames(mes, "split")
+	if err != nil || len(fr) < 2 {
+		return nil, fmt.Errorf("stall frames: %v (%d frames)", err, len(fr))
+	}
+	return [][]byte{fr[0], fr[1][:len(fr[1])/2]}, nil
+}
+
+// released checks (L1) that no wait channel of the named connections is still open.
+func (s *vfC13Sys) released(names []any, when string) []vfC13MM {
+	var mm []vfC13MM
+	for _, n := range names {
+		name := fmt.Sprint(n)
+		if s.pending(name) {
+			mm = append(mm, vfC13MM{"wait-never-released", fmt.Sprintf("an IdentifyWait channel of %s is still open %s (the connection is open, the remote silent)", name, when), "closed", "open"})
+		}
+	}
+	return mm
+}
+
 // inbound builds a push stream on c whose bytes have all arrived already.
 func (s *vfC13Sys) inbound(c *vfC13Conn, frames [][]byte, reset bool) *vfC13Stream {
+	l, r := s.inboundOpen(c, frames)
+	if reset {
+		r.out.close(network.ErrReset)
+	} else {
+		r.Close()
+	}
+	return l
+}
+
+// inboundOpen: the sender has written frames and neither closed nor reset the stream.
+func (s *vfC13Sys) inboundOpen(c *vfC13Conn, frames [][]byte) (*vfC13Stream, *vfC13End) {
 	c.mu.Lock()
 	c.nstreams++
 	id := fmt.Sprintf("%s-in-%d", c.name, c.nstreams)
@@ -1083,12 +1207,7 @@ func (s *vfC13Sys) inbound(c *vfC13Conn, frames [][]byte, reset bool) *vfC13Stre
 	for _, f := range frames {
 		r.Write(f)
 	}
-	if reset {
-		r.out.close(network.ErrReset)
-	} else {
-		r.Close()
-	}
-	return l
+	return l, r
 }
 
 var vfC13ChunkModes = []string{"one", "split", "dup", "nine"}
@@ -1194,8 +1313,38 @@ func (s *vfC13Sys) apply(op vfh.Op) ([]vfC13MM, error) {
 			mm = append(mm, vfC13MM{"L2:no-identify-in-flight", err.Error(), nil, nil})
 		}
 	case "timeout":
+		for _, n := range op.L("cs") {
+			if sc := s.conns[fmt.Sprint(n)]; sc != nil {
+				if err := s.stall(sc, op.S("at")); err != nil {
+					mm = append(mm, vfC13MM{"L2:no-identify-in-flight", err.Error(), nil, nil})
+				}
+			}
+		}
 		time.Sleep(s.ids.timeout + time.Second)
 		synctest.Wait()
+		mm = append(mm, s.released(op.L("cs"), fmt.Sprintf("%v after the remote stalled at %s", s.ids.timeout+time.Second, op.S("at")))...)
+	case "pushstall":
+		var frames [][]byte
+		if op.S("at") == "mid" {
+			fr, err := s.stallFrames()
+			if err != nil {
+				return nil, err
+			}
+			frames = fr
+		}
+		l, _ := s.inboundOpen(c, frames)
+		done := make(chan struct{})
+		go func() { s.ids.handlePush(l); close(done) }()
+		select {
+		case <-done:
+		case <-time.After(s.ids.timeout + 30*time.Second):
+			mm = append(mm, vfC13MM{"L2:push-handler-stuck", "handlePush on a silent stream did not return 30 s after the identify timeout", nil, nil})
+			l.reset()
+			<-done
+		}
+		time.Sleep(time.Second)
+		synctest.Wait()
+		mm = append(mm, s.released(op.L("cs"), fmt.Sprintf("%v after it was started (a silent push stream let that time pass)", s.ids.timeout+time.Second))...)
 	default:
 		return nil, fmt.Errorf("unknown op %q", op.Name())
 	}
@@ -1514,6 +1663,12 @@ func (s *vfC13Sys) check(op vfh.Op, st *vfC13St) []vfC13MM {
 	if k := s.ps.PubKey(g.idR); k != nil && !g.idR.MatchesPublicKey(k) {
 		mm = append(mm, vfC13MM{"key-not-matching-stored", "the key stored for R does not hash to R", "none|R", r.Key})
 	}
+	// L1 suffix: nothing stored for R stems from an address whose /p2p suffix names another peer
+	for t := range r.Addrs {
+		if vfC13ForeignOnly[t] || (strings.HasSuffix(t, "+suffix") && t != "rs+suffix" && t != "d4s+suffix") {
+			mm = append(mm, vfC13MM{"foreign-suffixed-address-recorded", fmt.Sprintf("after %s the peerstore holds for R an address (%s) that the message carried only with the /p2p suffix of another peer", op.Name(), t), nil, r.Addrs})
+		}
+	}
 	// L1 caps (the code's own constants)
 	if r.NAddrs > connectedPeerMaxAddrs {
 		mm = append(mm, vfC13MM{"address-cap-exceeded", fmt.Sprintf("%d addresses retained for R", r.NAddrs), connectedPeerMaxAddrs, r.NAddrs})
@@ -1736,6 +1891,37 @@ func vfC13CfgOf(hdr map[string]any) (vfC13Cfg, error) {
 		RecentMax: raw.RecentMax, PsMaxProtos: raw.PsMaxProtos, PsMaxAddrs: raw.PsMaxAddrs, AW: raw.AW, PW: raw.PW}, nil
 }
 
+// vfC13Progress counts executed steps; the watchdog (real time, outside every bubble) turns a harness
+// that makes no step for minutes - a call into the service that never returns and is not waiting on
+// anything virtual time could end - into a recorded mismatch instead of a dead test binary.
+var vfC13Progress atomic.Int64
+
+func vfC13Watchdog(res *vfh.Result, what string) (stop func()) {
+	quit := make(chan struct{})
+	limit := time.Duration(vfh.EnvInt("VERIF_C13_STUCK_S", 240)) * time.Second
+	go func() {
+		last, since := vfC13Progress.Load(), time.Now()
+		tk := time.NewTicker(5 * time.Second)
+		defer tk.Stop()
+		for {
+			select {
+			case <-quit:
+				return
+			case <-tk.C:
+			}
+			if n := vfC13Progress.Load(); n != last {
+				last, since = n, time.Now()
+			} else if time.Since(since) > limit {
+				res.AddMismatch(vfh.Mismatch{Class: "service-call-never-returns", Walk: -1, Step: int(last),
+					What: fmt.Sprintf("%s: no step finished for %v of real time: a call into the identify service does not return and waits on nothing a deadline could end", what, limit)})
+				res.Write()
+				os.Exit(1)
+			}
+		}
+	}()
+	return func() { close(quit) }
+}
+
 func TestVerifC13Replay(t *testing.T) {
 	res := vfh.NewResult()
 	defer func() {
@@ -1743,6 +1929,7 @@ func TestVerifC13Replay(t *testing.T) {
 			t.Fatal(err)
 		}
 	}()
+	defer vfC13Watchdog(res, "replay")()
 	if err := vfC13Init(); err != nil {
 		t.Fatal(err)
 	}
@@ -1805,10 +1992,14 @@ func vfC13Walk(t *testing.T, res *vfh.Result, cfg vfC13Cfg, w vfh.Walk, file str
 	report := func(i int, m vfC13MM) {
 		res.AddMismatch(vfh.Mismatch{Class: m.Class, What: m.What, Walk: w.Walk, Step: i, Expected: m.Exp, Got: m.Got,
 			Prefix: append([]vfh.Op{}, prefix...), Cfg: map[string]any{"instance": cfg.Name, "file": file, "lax_keybook": cfg.Lax, "limited": cfg.Limited, "settle": settle}})
+		if m.Class == "wait-never-released" {
+			res.Write() // whatever happens to this process later, the verdict is on disk
+		}
 	}
 	var last *vfC13St
 	for i, stp := range w.Steps {
 		prefix = append(prefix, stp.Op)
+		vfC13Progress.Add(1)
 		mm, err := sys.apply(stp.Op)
 		if err != nil {
 			t.Fatalf("walk %d step %d: %v", w.Walk, i, err)
